@@ -74,6 +74,75 @@ namespace vh
     return d;
   }
 
+
+  // ---- BCSR: block pattern p (block rows x block cols), block k stored row-major as val[k*BH*BW + bi*BW + bj]
+  template<typename DT, typename IT, int BH, int BW, typename MT>
+  MT make_bcsr(Index rows, Index cols, const Pattern& p, const std::string& name, Dense<DT>* dense)
+  {
+    if(dense) *dense = dense_zero<DT>(rows * BH, cols * BW);
+    Index n = nnz(p);
+    if(n == 0) return MT(rows, cols);
+    LAFEM::DenseVector<IT, IT> ci(n), rp(rows + 1); LAFEM::DenseVector<DT, IT> va(n * BH * BW);
+    Index k = 0;
+    for(Index i = 0; i < rows; ++i)
+    {
+      rp(i, IT(k));
+      for(Index j : p[i])
+      {
+        ci(k, IT(j));
+        for(int bi = 0; bi < BH; ++bi) for(int bj = 0; bj < BW; ++bj)
+        {
+          Index q = k * BH * BW + Index(bi * BW + bj);
+          DT v = H<DT>::var(name + str(q), 1.25 + 0.3125 * double(q) * ((q % 3 == 1) ? -1.0 : 1.0)); va(q, v);
+          if(dense) (*dense)[i * BH + Index(bi)][j * BW + Index(bj)] += v;
+        }
+        ++k;
+      }
+    }
+    rp(rows, IT(k));
+    return MT(rows, cols, ci, va, rp);
+  }
+  // ---- CSCR: only non-empty rows are stored
+  template<typename DT, typename IT, typename MT>
+  MT make_cscr(Index rows, Index cols, const Pattern& p, const std::string& name, Dense<DT>* dense)
+  {
+    if(dense) *dense = dense_zero<DT>(rows, cols);
+    Index n = nnz(p);
+    if(n == 0) return MT(rows, cols);
+    Index ur = 0; for(auto& r : p) if(!r.empty()) ++ur;
+    LAFEM::DenseVector<IT, IT> ci(n), rp(ur + 1), rn(ur); LAFEM::DenseVector<DT, IT> va(n);
+    Index k = 0, u = 0;
+    for(Index i = 0; i < rows; ++i)
+    {
+      if(p[i].empty()) continue;
+      rp(u, IT(k)); rn(u, IT(i)); ++u;
+      for(Index j : p[i]) { DT v = H<DT>::var(name + str(k), 1.25 + 0.3125 * double(k) * ((k % 3 == 1) ? -1.0 : 1.0)); ci(k, IT(j)); va(k, v); if(dense) (*dense)[i][j] += v; ++k; }
+    }
+    rp(ur, IT(k));
+    return MT(rows, cols, ci, va, rp, rn);
+  }
+  // ---- Banded: offsets strictly increasing in [0, rows+cols-2]; diagonal with offset o holds (i, i + o - (rows-1)); val[b*rows + i]
+  template<typename DT, typename IT, typename MT>
+  MT make_banded(Index rows, Index cols, const std::vector<Index>& offs, const std::string& name, Dense<DT>* dense)
+  {
+    if(dense) *dense = dense_zero<DT>(rows, cols);
+    Index nb = Index(offs.size());
+    LAFEM::DenseVector<IT, IT> of(nb); LAFEM::DenseVector<DT, IT> va(nb * rows);
+    for(Index b = 0; b < nb; ++b)
+    {
+      of(b, IT(offs[b]));
+      for(Index i = 0; i < rows; ++i)
+      {
+        Index q = b * rows + i;
+        long j = long(i) + long(offs[b]) - long(rows - 1);
+        // entries of the virtual band outside the matrix are padding: filled with a variable too, they must not influence anything
+        DT v = H<DT>::var(name + str(q), 1.25 + 0.3125 * double(q) * ((q % 3 == 1) ? -1.0 : 1.0)); va(q, v);
+        if(dense && j >= 0 && j < long(cols)) (*dense)[i][Index(j)] += v;
+      }
+    }
+    return MT(rows, cols, va, of);
+  }
+
   // run f, report whether the FEAT abort stub was reached
   template<typename F> bool aborted(F f) { try { f(); } catch(const FeatAbort&) { return true; } return false; }
 }
